@@ -110,6 +110,12 @@ def hasher_rules(ctx, P):
                         ok, wit = False, w
     ctx.check(P + ':hasher:carry-cleared-before-scan', 'R-dom', 'when a chunk starts with the carry set, last_was_cr is cleared on every path before the chunk is scanned (also when the chunk does not start with LF)',
               ok, function=b.path, witness=fmt_path(b, wit) if wit else None)
+    # an empty chunk carries no information about what follows the pending CR: the carry survives it.  Every clear of the flag is
+    # behind a test that the chunk holds at least one octet (is_empty / first / len / get / split_first with a rejecting edge)
+    ne = [g for g, _ in guard_switches(b, clears, [r'call:.*::(is_empty|first|split_first|len|get)$|op:PtrMetadata'])] if clears else []
+    ok_ne, wit_ne = must_pass(b, clears, ne) if (clears and ne) else (False, None)
+    ctx.check(P + ':hasher:empty-chunk-keeps-carry', 'R-dom', 'last_was_cr is cleared only after the chunk was found non-empty (a zero-length write between CR and LF does not change the digest)',
+              ok_ne, function=b.path, guards=[site(b, g) for g in ne], witness=fmt_path(b, wit_ne) if wit_ne else None)
     # the flag is set only where a CR is the last octet of the chunk: that arm feeds the literal CR
     okset = bool(sets)
     for s_ in sets:
